@@ -412,8 +412,37 @@ def renorm(t: Any) -> Any:
         return cmp(t[1], renorm(t[2]), C(0))
     if h in ("eq", "ne") and len(t) == 3:
         x, y = sorted((renorm(t[1]), renorm(t[2])), key=_key)
+        if is_const(x) and is_const(y):          # two known values: decided
+            return (TRUE if x[1] == y[1] else FALSE) if h == "eq" else (FALSE if x[1] == y[1] else TRUE)
         return (h, x, y)
     return tuple(renorm(x) for x in t)
+
+
+def melt_pieces(t: Any):
+    """law: F.melt(id_vars=I, value_vars=[v1..vn]) is the concatenation, in this order, of n copies of F's rows - copy k carries the label vk in the variable
+    column, F[vk] in the value column and F's own id columns.  A term over ONE such melted frame therefore splits into n terms over F's rows:
+    [(label, term_k)] with the melted columns replaced by what they are in copy k; None when t reads no (or more than one) melted frame with known value columns"""
+    bases = []
+    for s in subterms(t):
+        if isinstance(s, tuple) and s and s[0] in ("win", "agg"):
+            return None          # a window / aggregate over the melted rows is not row-wise: it does not split
+        if isinstance(s, tuple) and len(s) >= 2 and s[0] in ("meltvar", "meltval", "meltid") and isinstance(s[1], tuple) and s[1] and s[1][0] == "melt" and s[1] not in bases:
+            bases.append(s[1])
+    if len(bases) != 1 or bases[0][3] is None or len(bases[0][3]) < 1:
+        return None
+    base = bases[0]
+
+    def sub_(x, lab, val):
+        if not isinstance(x, tuple) or not x:
+            return x
+        if x == ("meltvar", base):
+            return C(lab)
+        if x == ("meltval", base):
+            return val
+        if len(x) == 3 and x[0] == "meltid" and x[1] == base:
+            return x[2]
+        return tuple(sub_(y, lab, val) for y in x)
+    return [(lab, renorm(sub_(t, lab, val))) for lab, val in base[3]]
 
 
 def show(t: Any, depth: int = 0) -> str:
